@@ -21,6 +21,18 @@ Clauses (from the property statement)
                            legal name of every axis: rank 1..4, each position p named p and p - rank (so a vector's only axis
                            is named 0 and -1), python int or numpy integer, C / F / strided layout, for accumulate, apply with
                            statistics (in_place False and True), apply without statistics and the mismatch ValueError
+  part "many" (first in the enumeration)
+                           "mean and variance are those of all feature vectors accumulated so far; accumulation is additive, so
+                           any split or order of the same vectors across accumulate calls - along any axis, as vectors or tensors
+                           - gives the same transform" for tensors of MANY vectors: N at, one below and one above every power of
+                           two 2^8..2^13 (thorough 2^6..2^14, also +-2) and some multiples (3*1024, 5*512, 3*256, 2000, 3*4096,
+                           1000, ...), i.e. at and around any plausible internal block length; 1..3 coefficients (cheap). The N
+                           vectors are given whole as ONE tensor in six rank 2..4 presentations (coefficient axis first, middle,
+                           last; C and F order), in two calls (cut at N//2, at the largest power of two below N, one vector off
+                           either end), in random chunks in random order, after a few single vectors, and vector by vector; each
+                           history against the one-shot numpy moments (C16.additive, naming a history that does give the right
+                           transform). Also apply() on the N-vector tensor itself with statistics (C16.global_values) and without
+                           (C16.local_values), in and out of place.
 
 Tolerance: rtol 1e-9 on well-conditioned data: every coefficient has (mean^2 + var)/var <= 1e4, so the cancellation in
 E[x^2] - mean^2 stays far below it; absolute part 1e-9 * (|x| + |mean|)/std for the cancellation in x - mean.
@@ -637,6 +649,176 @@ def _part_axes(case, fails, slack):
     return True
 
 
+def _many_dataset(rng, N, n, dtype):
+    """N vectors of n coefficients with |mean| <= 5 std (so (mean^2+var)/var <= ~30: the round-off of ten thousand additions
+    times the cancellation in E[x^2] - mean^2 stays orders of magnitude below RTOL)."""
+    dt = np.dtype(dtype)
+    std = np.exp(rng.uniform(np.log(0.5), np.log(8.0), size=n))
+    mean = std * rng.uniform(-5.0, 5.0, size=n)
+    if dt.kind == "i":
+        std = std + 3.0
+    return (rng.standard_normal((N, n)) * std + mean).astype(dt)
+
+
+def _as_tensor(rng, chunk, how):
+    """(k, n) chunk as a tensor, coefficient axis anywhere. Returns (array, axis name, descr)."""
+    k, n = chunk.shape
+    neg = bool(rng.integers(2))
+    if how == "kn":
+        return np.array(chunk), (-1 if neg else 1), f"tensor({k},{n})"
+    if how == "nk":
+        return np.array(chunk.T), (-2 if neg else 0), f"tensor({n},{k})"
+    pairs = _factor_pairs(k)
+    a, b = pairs[int(rng.integers(len(pairs)))]
+    t = chunk.reshape(a, b, n)
+    if how == "abn":
+        return np.array(t), (-1 if neg else 2), f"tensor({a},{b},{n})"
+    if how == "anb":
+        return np.array(np.transpose(t, (0, 2, 1))), (-2 if neg else 1), f"tensor({a},{n},{b})"
+    if how == "nab":
+        return np.asfortranarray(np.transpose(t, (2, 0, 1))), (-3 if neg else 0), f"tensor({n},{a},{b})F"
+    pairs2 = _factor_pairs(b)
+    c, d = pairs2[int(rng.integers(len(pairs2)))]
+    return np.array(np.transpose(chunk.reshape(a, c, d, n), (0, 1, 3, 2))), (-2 if neg else 2), f"tensor({a},{c},{n},{d})"
+
+
+MANY_HOWS = ("kn", "nk", "abn", "anb", "nab", "acnd")
+
+
+def _part_many(case, fails, slack):
+    """"mean and variance are those of all feature vectors accumulated so far; accumulation is additive, so any split or
+    order of the same vectors across accumulate calls - along any axis, as vectors or tensors - gives the same transform":
+    for data sets of MANY vectors (N at and around powers of two and their multiples, i.e. at, just below and just above
+    any plausible internal block length), given (1) whole, as ONE tensor, in each of six rank 2..4 presentations,
+    (2) in two calls cut at N//2, at the largest power of two below N, one vector off either end, (3) in random chunks
+    in random order and presentation, (4) after a few single vectors, (5) vector by vector (`by_vector`).  Every history
+    must give (x - mean)/std with the one-shot numpy moments of the N vectors.  Also on the N-vector tensor itself:
+    "apply returns (x - mean)/std per coefficient of the chosen axis" with statistics, and "Without statistics, a tensor is
+    standardised with its own per-coefficient mean and variance over the other axes" (same expected values, since the
+    tensor IS the data set)."""
+    from pydrobert.speech.post import Standardize
+
+    rng = _common.make_rng(int(case["seed"]), "c16-many")
+    n, N, norm_var = int(case["n"]), int(case["N"]), bool(case["norm_var"])
+    D = _many_dataset(rng, N, n, case["dtype"])
+    D64 = D.astype(np.float64)
+    mean, sd = D64.mean(axis=0), np.sqrt(D64.var(axis=0))
+    if not (np.all(sd > 0) and np.all((mean ** 2 + sd ** 2) / sd ** 2 <= 1e3)):
+        raise RuntimeError("data set not well conditioned")
+    probe = _ro(np.concatenate([D64[:3], D64[-2:]]) + 0.25)
+    exp, mag = _expected(probe, -1, mean, sd if norm_var else None)
+
+    histories = []  # (description, [(array, axis)])
+    for how in MANY_HOWS:
+        arr, axis, descr = _as_tensor(rng, D, how)
+        histories.append((f"ONE call {descr} axis={axis}", [(arr, axis)]))
+    cuts = {N // 2, N - 1, 1}
+    b = 1
+    while 2 * b < N:
+        b *= 2
+    cuts.add(b)  # largest power of two below N
+    for cut in sorted(c for c in cuts if 0 < c < N):
+        parts = []
+        for lo, hi in ((0, cut), (cut, N)):
+            if hi - lo == 1:
+                parts.append((np.array(D[lo]), 0, f"vector({n},)"))
+            else:
+                parts.append(_as_tensor(rng, D[lo:hi], MANY_HOWS[int(rng.integers(len(MANY_HOWS)))]))
+        if rng.integers(2):
+            parts.reverse()
+        histories.append(("TWO calls " + " + ".join(f"{d} axis={a}" for _, a, d in parts), [(x, a) for x, a, _ in parts]))
+    # random chunks, permuted
+    order = rng.permutation(N)
+    rows, calls, i = D[order], [], 0
+    while i < N:
+        k = int(min(N - i, rng.integers(1, max(2, N // 3) + 1)))
+        if k == 1:
+            calls.append((np.array(rows[i]), -1, f"vector({n},)"))
+        else:
+            calls.append(_as_tensor(rng, rows[i : i + k], MANY_HOWS[int(rng.integers(len(MANY_HOWS)))]))
+        i += k
+    histories.append((f"{len(calls)} calls, permuted vectors: " + " + ".join(d for _, _, d in calls)[:100], [(x, a) for x, a, _ in calls]))
+    # a few single vectors first, then the rest as one tensor (statistics exist when the big tensor arrives)
+    k0 = int(rng.integers(1, 4))
+    if N - k0 >= 2:
+        arr, axis, descr = _as_tensor(rng, D[k0:], MANY_HOWS[int(rng.integers(len(MANY_HOWS)))])
+        histories.append((f"{k0} vectors then ONE call {descr} axis={axis}", [(np.array(D[j]), -1) for j in range(k0)] + [(arr, axis)]))
+    if case.get("by_vector"):
+        histories.append((f"{N} calls, one vector({n},) each", [(D[j], 0) for j in range(N)]))
+
+    results = []
+    for descr, calls in histories:
+        std = Standardize(norm_var=norm_var)
+        changed = False
+        try:
+            with warnings.catch_warnings():
+                warnings.simplefilter("ignore")
+                for arr, axis in calls:
+                    x = _ro(arr)
+                    std.accumulate(x, axis=axis)
+                    changed = changed or x.tobytes() != np.asarray(arr).tobytes()
+                res = std.apply(probe, axis=-1)
+        except Exception as e:  # noqa
+            fails.append(("C16.input_unmodified" if "read-only" in str(e) else "C16.raises", f"many: {N} vectors of {n} {D.dtype.name} as {descr}: raised {type(e).__name__}: {e}"))
+            results.append((descr, None, "raised"))
+            continue
+        if changed:
+            fails.append(("C16.input_unmodified", f"many: accumulate changed its input ({descr})"))
+        if not isinstance(res, np.ndarray) or res.dtype != np.float64 or res.shape != probe.shape:
+            fails.append(("C16.dtype_shape", f"many: after {descr}: apply returned {getattr(res, 'dtype', None)} {getattr(res, 'shape', None)}"))
+            results.append((descr, None, "bad type"))
+            continue
+        ok, worst, msg = _compare(res, exp, mag, None, -1)
+        slack[0] = max(slack[0], worst)
+        results.append((descr, ok, msg))
+    good = [d for d, ok, _ in results if ok]
+    nbad = 0
+    for descr, ok, msg in results:
+        if ok is False and nbad < 3:
+            nbad += 1
+            other = f"; the same vectors as [{good[0]}] give the right transform" if good else "; no presentation of these vectors gives the right transform"
+            fails.append(("C16.additive", f"many: {N} vectors of {n} {D.dtype.name} coefficients, norm_var={norm_var}, accumulated as [{descr}]: apply differs from (x - mean)/std of these vectors: {msg}{other}"))
+
+    # apply on the N-vector tensor itself: with the statistics of the data set, and without statistics (its own moments)
+    with_stats = Standardize(norm_var=norm_var)
+    try:
+        with warnings.catch_warnings():
+            warnings.simplefilter("ignore")
+            for j in range(0, N, 97):  # chunks shorter than any block length under test
+                if min(N, j + 97) - j > 1:
+                    with_stats.accumulate(_ro(D[j : j + 97]), axis=-1)
+                else:
+                    with_stats.accumulate(_ro(D[j]), axis=0)
+    except Exception as e:  # noqa
+        fails.append(("C16.raises", f"many: accumulating chunks of 97 vectors raised {type(e).__name__}: {e}"))
+        return True
+    for how in (MANY_HOWS[int(rng.integers(len(MANY_HOWS)))], "kn"):
+        t, axis, descr = _as_tensor(rng, D, how)
+        e2, m2 = _expected(t, axis, mean, sd if norm_var else None)
+        for label, obj, clause in (("with statistics", with_stats, "C16.global_values"), ("without statistics", Standardize(norm_var=norm_var), "C16.local_values")):
+            in_place = bool(rng.integers(2))
+            x = np.array(t, copy=True, order="K")
+            x.flags.writeable = in_place
+            what = f"many: apply({descr} {D.dtype.name}, axis={axis}, in_place={in_place}) {label}"
+            try:
+                with warnings.catch_warnings():
+                    warnings.simplefilter("ignore")
+                    res = obj.apply(x, axis=axis, in_place=in_place)
+            except Exception as e:  # noqa
+                fails.append(("C16.input_unmodified" if "read-only" in str(e) else "C16.raises", f"{what} raised {type(e).__name__}: {e}"))
+                continue
+            if not isinstance(res, np.ndarray) or res.dtype != np.float64 or res.shape != t.shape:
+                fails.append(("C16.dtype_shape", f"{what} returned {getattr(res, 'dtype', None)} {getattr(res, 'shape', None)}"))
+                continue
+            if (not in_place or D.dtype != np.float64) and x.tobytes() != t.tobytes():
+                fails.append(("C16.input_unmodified", f"{what} changed its input"))
+            ok, worst, msg = _compare(res, e2, m2, None, axis)
+            slack[0] = max(slack[0], worst)
+            if not ok:
+                fails.append(("C16.in_place" if in_place and D.dtype == np.float64 else clause, f"{what}: {msg}"))
+    return True
+
+
 def _check(case, tmpdir, slack):
     fails = []
     part = case["part"]
@@ -650,12 +832,50 @@ def _check(case, tmpdir, slack):
         nt = _part_local(case, fails, slack)
     elif part == "mismatch":
         nt = _part_mismatch(case, fails, slack)
+    elif part == "many":
+        nt = _part_many(case, fails, slack)
     else:
         raise ValueError(part)
     return fails, nt
 
 
+def _many_counts(tier):
+    """Numbers of vectors at and around plausible internal block lengths: 2^8..2^13 (thorough: 2^6..2^14), one below and
+    one above each, and a few multiples; the exact powers and multiples first."""
+    ks = range(8, 14) if tier == "quick" else range(6, 15)
+    powers = [2 ** k for k in ks]
+    # exact block lengths first, the most usual ones (1024, 512, 4096, 256) leading
+    exact = sorted(powers, key=lambda v: abs(np.log2(v) - 10.4))
+    mult = [3 * 1024, 5 * 512, 3 * 256, 2000, 3 * 4096, 1000] if tier == "quick" else [3 * 1024, 5 * 512, 3 * 256, 6 * 128, 7 * 64, 2000, 3000, 10000, 3 * 4096, 5 * 2048, 1000, 100]
+    near = [v + d for v in exact for d in (1, -1)] + ([] if tier == "quick" else [v + d for v in exact for d in (2, -2)])
+    return exact, mult, near
+
+
+def _many_cases(tier, seed):
+    """`many` cases: few coefficients (cheap), every count x norm_var, dtypes in rotation; vector-by-vector histories for
+    the counts up to 4097 in quick (all in thorough)."""
+    rng = _common.make_rng(seed, "c16-many-enum")
+    exact, mult, near = _many_counts(tier)
+    k = 0
+    rounds = ((True, exact), (True, mult), (True, near), (False, exact + mult), (True, exact + mult), (False, near)) if tier == "quick" else ((True, exact + mult + near), (False, exact + mult + near), (True, exact + mult))
+    for r, (norm_var, counts) in enumerate(rounds):
+        for N in counts:
+            k += 1
+            yield {
+                "part": "many",
+                "dtype": DTYPES[(k + r) % len(DTYPES)] if (r or k % 2 == 0) else "float64",
+                "norm_var": norm_var,
+                "n": int(rng.integers(1, 4 if tier == "quick" else 7)),
+                "N": int(N),
+                "by_vector": bool(tier != "quick" or (N <= 4097 and norm_var)),
+                "seed": int(seed) * 1000003 + 500000 + k,
+            }
+
+
 def _cases(tier, seed):
+    # tensors of MANY vectors first (cheap: a few coefficients each): block-wise reductions show only there
+    for c in _many_cases(tier, seed):
+        yield c
     rng = _common.make_rng(seed, "c16-enum")
     k = 0
     # most discriminating first: small data sets, every dtype x norm_var x part
@@ -706,7 +926,10 @@ def run(tier: str, seed: int) -> dict:
              f"{2 * sum(2 * r for r in range(2, MAX_RANK + 1))} without, and {2 * sum(2 * r for r in range(1, MAX_RANK + 1))} rejected calls")
     col.note(f"worst |apply - oracle| relative to (|x|+|mean|)/std: {slack[0]:.3g}; worst relative difference between two accumulation plans: {slack[1]:.3g} (tolerance {RTOL:g})")
     return col.result(
-        rule="case = (part, dtype, norm_var, n coefficients, N vectors, axis_np, seed). axes: EVERY legal axis name (rank 1..4, each position p named p and p - rank: 20 names; "
+        rule="case = (part, dtype, norm_var, n coefficients, N vectors, axis_np, seed). many (enumerated first): N vectors of 1..3 coefficients with N at / one below / one above "
+        "powers of two and some multiples; the same vectors accumulated as ONE tensor (6 presentations of rank 2..4, coefficient axis in every position), in TWO calls (cut at N//2, "
+        "largest power of two below N, 1, N-1; either order), in random permuted chunks, after 1..3 single vectors, and (by_vector) one vector per call, each followed by a probe apply "
+        "compared with the one-shot oracle; plus apply on the whole N-vector tensor with and without statistics, in_place or not. axes: EVERY legal axis name (rank 1..4, each position p named p and p - rank: 20 names; "
         "rank 1 = a feature vector whose only axis is named 0 or -1; python int, or np.int64 when axis_np) is used (a) to accumulate the whole data set along it "
         "(vectors one by one / one tensor, C, F or strided layout) followed by a fixed probe apply, (b) to apply with statistics with in_place False and True "
         "(other axes of length 1, 2, 3 or n), (c) rank >= 2: to apply without statistics, in_place False and True, (d) to apply/accumulate a tensor whose chosen "
@@ -716,7 +939,8 @@ def run(tier: str, seed: int) -> dict:
         "with positive or negative axis) and apply() is run on a vector (axis 0 or -1) and three tensors of rank 2..4 (random axis, dtype, order, in_place) after each plan; "
         "loaded: statistics file written from hand-made sums, then more accumulated on top; local: no statistics; mismatch: wrong feature dimension. "
         "A case is non-trivial unless the data set is a single vector with norm_var (variance 0).",
-        bound=f"BOUNDED: seeded random data, n <= 12 coefficients, N <= 40 vectors, rank <= {MAX_RANK} (all 20 axis names of ranks 1..{MAX_RANK} in every `axes` case), dtypes float64/float32/int16/int32, every coefficient with (mean^2+var)/var <= 1e4 "
+        bound=f"BOUNDED: part many: N in {sorted(set(sum(_many_counts(tier), [])))} vectors of <= {3 if tier == 'quick' else 6} coefficients, |mean| <= 5 std; other parts: "
+        f"seeded random data, n <= 12 coefficients, N <= 40 vectors, rank <= {MAX_RANK} (all 20 axis names of ranks 1..{MAX_RANK} in every `axes` case), dtypes float64/float32/int16/int32, every coefficient with (mean^2+var)/var <= 1e4 "
         f"(means up to 50 std, either sign); time-boxed ({budget:.0f} s)",
         assumptions=ASSUMPTIONS,
     )
